@@ -847,3 +847,11 @@ def instances(tier):       # noqa: F811
     # the E-step of the integration models with the inline aligner on (a link of their alternation): per bin, independent of the others
     from .c14 import integration_pa_bounded_instance
     return _inst_before_initdtype(tier) + [init_dtype_bounded_instance(), integration_pa_bounded_instance('C08')]
+
+
+_instances_before_simplex = instances
+
+
+def instances(tier):       # noqa: F811
+    from .common import simplex_lemma_instances
+    return _instances_before_simplex(tier) + simplex_lemma_instances('C08')
